@@ -29,12 +29,15 @@ var c19Files = []string{
 	"k: a\nBenchmarkA 1 7 ns/op\nk:\nBenchmarkA 1 8 ns/op\nk: c\nBenchmarkA 1 9 ns/op\n",
 	// a quote and a backslash in a value; foreign lines
 	"j: q\"u\\o\nPASS\nBenchmarkD 1 1 ns/op\nok pkg 1s\n",
+	// lines naming the labels the server adds (empty-valued, and with another value): they are the server's, a
+	// file can neither remove nor change them
+	"k: a\nBenchmarkA 1 1 ns/op\nby:\nupload-part:\nupload: other\nupload-file:\nupload-time:\nBenchmarkA 1 2 ns/op\nk: b\nBenchmarkA 1 3 ns/op\n",
 	// a ladder of values of one key (for conjunctions of several range terms on that key)
 	"k: a\nBenchmarkL 1 1 ns/op\nk: b\nBenchmarkL 1 2 ns/op\nk: c\nBenchmarkL 1 3 ns/op\nk: d\nBenchmarkL 1 4 ns/op\nk: e\nBenchmarkL 1 5 ns/op\nk: f\nBenchmarkL 1 6 ns/op\nk: g\nBenchmarkL 1 7 ns/op\nk:\nBenchmarkL 1 8 ns/op\n",
 }
 
 // uploads of the state alphabet: lists of file indices
-var c19Uploads = [][]int{{0}, {1}, {2}, {0, 1}, {1, 0}, {2, 3}, {4}, {3}, {5}}
+var c19Uploads = [][]int{{0}, {1}, {2}, {0, 1}, {1, 0}, {2, 3}, {4}, {5, 3}, {6}}
 
 // c19FileName: files are called f<i>.txt, except that the second file of upload {1, 0} and the first of {2, 3} are
 // sent without a name (allowed by the client API): each file's server labels are its own.
